@@ -25,11 +25,11 @@ def units():
                   "function": "double64.c:double64_le_%s, double64_be_%s" % (nm.split("_")[1], nm.split("_")[1]), "timeout": 1200, "self_replay": True, "inputs": ["nd"], "replay_link": "all", "replay_exclude": [nm.split("_")[0] + ".c"],
                   "cbmc_flags": ["--unwind", "10"], "kind": "proof(full domain: every normal double precision value)",
                   "trusted": ["E1 models of frexp (normal doubles), pow (2.0, small integer), fmod (x, 1.0), written on the IEEE definitions"]})
-    for lay, fn in (("WAV", "wavlike_ima_seek"), ("AIFF", "aiff_ima_seek"), ("MS", "msadpcm_seek")):
-        for ch in (1, 2):
-            U.append({"name": "%s.%s.ch%d" % ("msadpcm" if lay == "MS" else "ima", fn, ch), "props": ["C06"], "harness": "ima_seek.harness.c", "entry": "h_ima_seek", "enforce": fn,
-                      "replace": ["psf_fseek"] + (["msadpcm_decode_block"] if lay == "MS" else []),
-                      "function": ("ms_adpcm.c:" if lay == "MS" else "ima_adpcm.c:") + fn, "defines": ["-DLAYOUT_%s" % lay, "-DCH=%d" % ch], "timeout": 1200, "backend": "kissat",
+    for lay, fn in (("WAV", "wavlike_ima_seek"), ("AIFF", "aiff_ima_seek"), ("MS", "msadpcm_seek")):	# gsm610_seek: handles are opened unseekable (gsm610_init), the function is unreachable through sf_seek; no unit
+        for ch in ((1,) if lay == "GSM" else (1, 2)):
+            U.append({"name": "%s.%s.ch%d" % ({"MS": "msadpcm", "GSM": "gsm610"}.get(lay, "ima"), fn, ch), "props": ["C06"], "harness": "ima_seek.harness.c", "entry": "h_ima_seek", "enforce": fn,
+                      "replace": ["psf_fseek"] + (["msadpcm_decode_block"] if lay == "MS" else []) + (["gsm_init", "gsm_option"] if lay == "GSM" else []),
+                      "function": {"MS": "ms_adpcm.c:", "GSM": "gsm610.c:"}.get(lay, "ima_adpcm.c:") + fn, "defines": ["-DLAYOUT_%s" % lay, "-DCH=%d" % ch], "timeout": 1200, "backend": "kissat",
                       "kind": "enumerated(block geometry of the %s layout, channels=%d)" % (lay, ch),
                       "trusted": ["decode_block_c: effect of the block decoders on blockcount/samplecount and the file position (frame contract, not enforced here)",
                                   "psf_fseek succeeds (failed repositioning is not reported by these functions: see not_decided)"]})
